@@ -7,7 +7,23 @@ import os, sys, json, glob, subprocess, tempfile, shutil
 ROOT = os.path.dirname(os.path.dirname(os.path.dirname(os.path.abspath(__file__))))
 
 
-def run_mutant(meta, repo='/repo', keep=False, verbose=False):
+def worker_target(slot):
+    """each parallel worker needs its own cargo target dir (cargo locks it); slot 0 is the main one, the others are
+    copies of it made on first use (dependencies are already built there, so a copy costs seconds, not a rebuild)"""
+    main = os.path.join(ROOT, '.cache', 'target-mir')
+    if slot == 0:
+        return main
+    d = os.path.join(ROOT, '.cache', 'target-mir-w%d' % slot)
+    if not os.path.isdir(os.path.join(d, 'debug')) and os.path.isdir(os.path.join(main, 'debug')):
+        tmpd = d + '.tmp%d' % os.getpid()
+        shutil.rmtree(tmpd, ignore_errors=True)
+        shutil.copytree(main, tmpd, symlinks=True)
+        shutil.rmtree(d, ignore_errors=True)
+        os.rename(tmpd, d)
+    return d
+
+
+def run_mutant(meta, repo='/repo', keep=False, verbose=False, slot=0):
     tmp = tempfile.mkdtemp(prefix='xv-mut-')
     try:
         scratch = os.path.join(tmp, 'repo')
@@ -26,7 +42,7 @@ def run_mutant(meta, repo='/repo', keep=False, verbose=False):
         env = dict(os.environ)
         env['XV_REPO'] = scratch
         env['XV_CACHE'] = os.path.join(tmp, 'cache')
-        env['XV_TARGET'] = os.path.join(ROOT, '.cache', 'target-mir')
+        env['XV_TARGET'] = worker_target(slot)
         env['XV_EVIDENCE_DIR'] = os.path.join(tmp, 'evidence')
         env['XV_OUT_DIR'] = os.path.join(tmp, 'out')
         q = subprocess.run([os.path.join(ROOT, 'xv'), 'check', meta['property'], '--tier', 'quick'], env=env, stdout=subprocess.PIPE, stderr=subprocess.STDOUT, text=True)
@@ -44,6 +60,37 @@ def run_mutant(meta, repo='/repo', keep=False, verbose=False):
             shutil.rmtree(tmp, ignore_errors=True)
 
 
+def default_jobs():
+    try:
+        return max(1, min(6, int(os.environ.get('XV_JOBS', '0')) or (os.cpu_count() or 2) // 3))
+    except ValueError:
+        return 1
+
+
+def run_many(metas, jobs=1, verbose=False, repo='/repo'):
+    """yield (name, status, info) for each mutant, in the order given, running up to `jobs` scratch copies at once"""
+    import queue
+    from concurrent.futures import ThreadPoolExecutor
+    jobs = max(1, min(jobs, len(metas) or 1))
+    slots = queue.Queue()
+    for i in range(jobs):
+        slots.put(i)
+
+    def one(m):
+        s = slots.get()
+        try:
+            st, info = run_mutant(m, repo=repo, verbose=verbose, slot=s)
+        except Exception as e:  # a harness failure must not read as a pass
+            st, info = 'error', 'harness: %r' % (e,)
+        finally:
+            slots.put(s)
+        return m['_name'], st, info
+
+    with ThreadPoolExecutor(max_workers=jobs) as ex:
+        for r in ex.map(one, metas):
+            yield r
+
+
 def main(argv):
     prop = None
     if '--prop' in argv:
@@ -52,6 +99,7 @@ def main(argv):
     if '--only' in argv:
         only = argv[argv.index('--only') + 1]
     verbose = '-v' in argv
+    jobs = int(argv[argv.index('-j') + 1]) if '-j' in argv else default_jobs()
     metas = []
     for f in sorted(glob.glob(os.path.join(ROOT, 'mutants', '*.json'))):
         m = json.load(open(f))
@@ -63,11 +111,93 @@ def main(argv):
         metas.append(m)
     bad = 0
     res = []
-    for m in metas:
-        st, info = run_mutant(m, verbose=verbose)
-        res.append((m['_name'], st, info))
-        print('selftest %-40s %-8s %s' % (m['_name'], st, info))
+    for name, st, info in run_many(metas, jobs=jobs, verbose=verbose):
+        res.append((name, st, info))
+        print('selftest %-40s %-8s %s' % (name, st, info), flush=True)
         if st in ('missed', 'error'):
             bad += 1
     print('selftest: %d mutants, %d caught, %d skipped, %d missed/error' % (len(res), sum(1 for r in res if r[1] == 'caught'), sum(1 for r in res if r[1] == 'skipped'), bad))
     return 1 if bad else 0
+
+
+def run_patch_all(patch, repo='/repo', slot=0, props=None):
+    """apply `patch` (git diff) to a scratch copy of `repo`, regenerate facts there and run every claimed check (or
+    `props`); returns (status, {property: [finding lines]}) where status is ok | skipped | error"""
+    tmp = tempfile.mkdtemp(prefix='xv-seed-')
+    try:
+        scratch = os.path.join(tmp, 'repo')
+        os.makedirs(scratch)
+        for item in ('src', 'book', 'Cargo.toml', 'Cargo.lock'):
+            s = os.path.join(repo, item)
+            d = os.path.join(scratch, item)
+            if os.path.isdir(s):
+                shutil.copytree(s, d)
+            else:
+                shutil.copy(s, d)
+        # seeded patches may also add files outside src/ (their demonstration); only src/, book/ and Cargo.* matter here
+        p = subprocess.run(['patch', '-p1', '--no-backup-if-mismatch', '-s', '-f', '-i', patch], cwd=scratch, stdout=subprocess.PIPE, stderr=subprocess.STDOUT, text=True)
+        if p.returncode != 0:
+            return 'skipped', {'_': ['patch does not apply: ' + p.stdout.strip()[:300]]}
+        env = dict(os.environ)
+        env['XV_REPO'] = scratch
+        env['XV_CACHE'] = os.path.join(tmp, 'cache')
+        env['XV_TARGET'] = worker_target(slot)
+        env['XV_EVIDENCE_DIR'] = os.path.join(tmp, 'evidence')
+        env['XV_OUT_DIR'] = os.path.join(tmp, 'out')
+        cmd = [os.path.join(ROOT, 'xv'), 'all'] if not props else None
+        outs = []
+        if cmd:
+            q = subprocess.run(cmd, env=env, stdout=subprocess.PIPE, stderr=subprocess.STDOUT, text=True)
+            outs.append(q.stdout)
+        else:
+            for pr in props:
+                q = subprocess.run([os.path.join(ROOT, 'xv'), 'check', pr], env=env, stdout=subprocess.PIPE, stderr=subprocess.STDOUT, text=True)
+                outs.append(q.stdout)
+        out = '\n'.join(outs)
+        if 'does not build under the MIR engine' in out:
+            return 'error', {'_': ['patched tree does not compile:\n' + out[-1500:]]}
+        fired = {}
+        cur = None
+        pend = []
+        for l in out.splitlines():
+            if l.startswith('  ') and ': R' in l:
+                pend.append(l.strip())
+            elif l.startswith('VIOLATION property='):
+                cur = l.split()[1].split('=')[1]
+                # the finding line that precedes a VIOLATION line belongs to it
+                fired.setdefault(cur, [])
+                fired[cur].append(pend[-1][:400] if pend else 'engine/crash (rule module raised on the patched tree)')
+                pend = []
+            elif l.startswith('KNOWN-FINDING'):
+                pend = []
+        return 'ok', fired
+    finally:
+        shutil.rmtree(tmp, ignore_errors=True)
+
+
+def seeded_main(argv):
+    """./xv seeded [<dir-name-substring>] : run every check against each seeded/<id>/patch.diff on a scratch copy"""
+    only = argv[0] if argv and not argv[0].startswith('-') else None
+    dirs = sorted(glob.glob(os.path.join(ROOT, 'seeded', '*', 'meta.json')))
+    bad = 0
+    for mf in dirs:
+        d = os.path.dirname(mf)
+        name = os.path.basename(d)
+        if only and only not in name:
+            continue
+        meta = json.load(open(mf))
+        st, fired = run_patch_all(os.path.join(d, 'patch.diff'))
+        prop = meta['property']
+        if st != 'ok':
+            print('seeded %-28s %-8s %s' % (name, st, fired.get('_')))
+            continue
+        own = fired.get(prop, [])
+        others = {k: v for k, v in fired.items() if k != prop}
+        verdict = 'caught' if own else ('caught-by-other' if others else 'missed')
+        if verdict == 'missed':
+            bad += 1
+        print('seeded %-28s %-16s %s' % (name, verdict, (own or sum(others.values(), []) or [''])[0][:260]))
+        for k, v in sorted(fired.items()):
+            for l in v:
+                print('        %s: %s' % (k, l[:300]))
+    return 0
